@@ -4,6 +4,7 @@ import datetime
 import email.utils
 import itertools
 import json
+import math
 import ssl
 import urllib.parse
 from collections.abc import AsyncIterator
@@ -150,7 +151,7 @@ def _parse_retry_after(value: str) -> int | None:
     if when.tzinfo is None:
         when = when.replace(tzinfo=datetime.timezone.utc)
     now = datetime.datetime.now(datetime.timezone.utc)
-    return max(0, int((when - now).total_seconds()))
+    return max(0, math.ceil((when - now).total_seconds()))  # never earlier than requested
 
 
 async def get(
